@@ -347,14 +347,48 @@ func (c *Ctx) distinctAddr(a, b Term) bool {
 }
 
 // skipStores walks back over stores that cannot affect a read at addr.
+func (c *Ctx) noteQuantLoad(t Term) {
+	if n := len(c.quantLoads); n > 0 && c.inQuant > 0 {
+		c.quantLoads[n-1] = append(c.quantLoads[n-1], t)
+	}
+}
+
 func (c *Ctx) skipStores(m Term, addr Term) Term {
-	for {
-		rec, ok := c.storeOf[m.S]
-		if !ok || !c.distinctAddr(rec.addr, addr) {
+	return c.readBase(m, addr, 0)
+}
+
+// readBase: an older version of memory m that is certain to agree with m at owner (the address
+// for flat memories, the array for element memories): stores to syntactically different objects
+// are skipped, allocation frames are looked through for objects allocated before entry, and a
+// merge whose branches all reduce to the same version is that version.
+func (c *Ctx) readBase(m Term, owner Term, depth int) Term {
+	for ; depth < 64; depth++ {
+		if rec, ok := c.storeOf[m.S]; ok {
+			if c.distinctAddr(rec.addr, owner) {
+				m = rec.base
+				continue
+			}
 			return m
 		}
-		m = rec.base
+		if fr, ok := c.frameRecs[m.S]; ok {
+			if c.refClass(owner) == -1 {
+				m = fr.old
+				continue
+			}
+			return m
+		}
+		if parts, ok := c.mergeOf[m.S]; ok && len(parts) > 0 {
+			common := c.readBase(parts[0], owner, depth+1)
+			for _, p := range parts[1:] {
+				if r := c.readBase(p, owner, depth+1); r.S != common.S {
+					return m
+				}
+			}
+			return common
+		}
+		return m
 	}
+	return m
 }
 
 func (c *Ctx) newObj() Term {
@@ -460,6 +494,7 @@ func (c *Ctx) cellRead(st *State, name, vs string, addr Term) Term {
 	fm := c.skipStores(c.memGet(st, name, vs), addr)
 	c.groundFrames(fm, addr)
 	flat := Select(fm, addr)
+	c.noteQuantLoad(flat)
 	if vs == SRef && st.epoch == 0 {
 		if init, ok := c.memInit[name]; ok && init.S == fm.S {
 			c.oldRefs[flat.S] = true // references stored in the initial heap denote objects allocated before entry
@@ -480,6 +515,7 @@ func (c *Ctx) elemRead(st *State, name, vs string, arr, idx Term) Term {
 	c.groundElem(en, arr, idx, vs)
 	c.groundCopies(m, idx, vs)
 	r := Select(Select(m, arr), idx)
+	c.noteQuantLoad(r)
 	if vs == SRef && st.epoch == 0 {
 		if init, ok := c.memInit[en]; ok && init.S == m.S {
 			c.oldRefs[r.S] = true
@@ -827,7 +863,7 @@ func (c *Ctx) framedCopy(name, as string, old Term, frameB, zeroB int) Term {
 	} else {
 		c.mapValueAxiom(t, name, zeroB)
 	}
-	c.assumes = append(c.assumes, Assume{declPos: len(c.decls), heapAx: true, why: "a call leaves the cells of previously allocated objects unchanged: " + name,
+	c.assumes = append(c.assumes, Assume{declPos: len(c.decls), frameAx: true, why: "a call leaves the cells of previously allocated objects unchanged: " + name,
 		t: raw(fmt.Sprintf("(forall ((r Ref)) (! (=> (< (rroot r) %d) (= (select %s r) (select %s r))) :pattern ((select %s r))))",
 			frameB, t.S, old.S, t.S), SBool)})
 	return t
